@@ -98,6 +98,21 @@ def composed_worlds():
              [N("default", {"key": "a"}, text="1"), N("default", {"key": "A"}, text="2"),
               N("default", {"key": "a"}, text="3")])])])
     out.append(("main.xml", {"main.xml": main}, {("zcvsd_d", "component.xml"): comp}))
+    # 5 derived types whose base holds wildcard-named sections (children without a key: only their attribute
+    #   reserves a name), chain of two
+    main = N("schema", {}, [
+        N("sectiontype", {"name": "leaf"}, [N("key", {"name": "v"})]),
+        N("sectiontype", {"name": "base"}, [
+            N("multisection", {"type": "leaf", "name": "*", "attribute": "items"}),
+            N("section", {"type": "leaf", "name": "+", "attribute": "named"}),
+            N("key", {"name": "k-one", "attribute": "first"})]),
+        N("sectiontype", {"name": "mid", "extends": "base"}, [N("key", {"name": "k2"})]),
+        N("sectiontype", {"name": "top", "extends": "mid"}, [
+            N("multikey", {"name": "m3"}), N("section", {"type": "leaf", "name": "*", "attribute": "more"})]),
+        N("multisection", {"type": "top", "name": "*", "attribute": "tops"}),
+        N("multisection", {"type": "leaf", "name": "+", "attribute": "leaves"}),
+        N("key", {"name": "k-top", "attribute": "first"})])
+    out.append(("main.xml", {"main.xml": main}, {}))
     return out
 
 
@@ -124,6 +139,15 @@ def rename_world(w, i):
     return "%s_%s" % (sub, main), nfiles, ncomps
 
 
+def sample_edits(rng, es, cap):
+    """All edits whose value comes from the document itself ("set!"), a seeded sample of the others."""
+    if len(es) <= cap:
+        return es
+    keep = [e for e in es if e[0].startswith("set!")]
+    rest = [e for e in es if not e[0].startswith("set!")]
+    return keep + rng.sample(rest, max(0, min(len(rest), cap - len(keep) // 2)))
+
+
 # -- scenario generation -----------------------------------------------------------------------
 def scenarios(seed, quick):
     """-> list of (label, main rid, files, comps)"""
@@ -134,9 +158,7 @@ def scenarios(seed, quick):
     cap_plain = 260 if quick else 100000
     for bi, base in enumerate(plain):
         out.append(("base %d" % bi, None, base, None))
-        es = list(sd.edits(base))
-        if len(es) > cap_plain:
-            es = rng.sample(es, cap_plain)
+        es = sample_edits(rng, list(sd.edits(base)), cap_plain)
         for lab, t in es:
             out.append(("plain %d: %s" % (bi, lab), None, t, None))
         if not quick:
@@ -151,9 +173,7 @@ def scenarios(seed, quick):
         out.append(("world %d" % wi, "W", w, None))
         for name in list(files) + list(comps):
             base = files[name] if name in files else comps[name]
-            es = list(sd.edits(base))
-            if len(es) > cap_comp:
-                es = rng.sample(es, cap_comp)
+            es = sample_edits(rng, list(sd.edits(base)), cap_comp)
             for lab, t in es:
                 w2 = (main, dict(files), dict(comps))
                 if name in files:
@@ -260,8 +280,8 @@ OVERRIDES = {k: "MC" + k for k in ("KeyNorm", "LowerOf", "AttrOf", "IsIdent", "I
 def run(chk):
     quick = chk.tier == "quick"
     items = scenarios(chk.seed, quick)
-    chk.rule = ("every document of the C01 family and of four composed worlds (component imported twice, two base "
-                "schemas, import/@src with prefixes, derived types re-keying '+' defaults incl. from a component) and "
+    chk.rule = ("every document of the C01 family and of five composed worlds (component imported twice, two base "
+                "schemas, import/@src with prefixes, derived types re-keying '+' defaults incl. from a component, derived types over wildcard-named sections) and "
                 "every document obtained by one generic edit at every position (set every attribute to each value of "
                 "its pool incl. sibling names and their case variants / delete it; duplicate, delete, move, retag every "
                 "node; insert an element of every kind under every node; insert character data)"
